@@ -1053,7 +1053,7 @@ var c19FieldObj = map[string]string{"Logger": oGeneric, "TransportType": oGeneri
 // ---------------------------------------------------------------- one case
 
 func runC19Case(id string, c *c19Case) {
-	defer recoverCase(id, c)
+	defer watchCase(id, c)()
 	c19EnsureFiles()
 	cs := &Case{ID: id, Kind: c.Kind + "/" + c.Class, HypOK: true, Replay: c}
 
